@@ -1,7 +1,10 @@
 import ShkModel.Driver.C01
 import ShkModel.Driver.C18
+import ShkModel.Driver.C17
+import ShkModel.Driver.C06
 import ShkModel.Driver.Aud
 import ShkModel.Driver.C02
+import ShkModel.Driver.C03
 import ShkModel.Driver.C08
 import ShkModel.Driver.C11
 /-! `shkdrv`: the executable model driver.  One request per line
@@ -13,8 +16,11 @@ def dispatch (line : String) : String :=
   match (line.trimAscii.toString.splitOn " ").filter (· ≠ "") with
   | "C01" :: rest => C01.handle rest
   | "C18" :: rest => C18.handle rest
+  | "C17" :: rest => C17.handle rest
+  | "C06" :: rest => C06.handle rest
   | "AUD" :: rest => Aud.handle rest
   | "C02" :: rest => C02.handle rest
+  | "C03" :: rest => C03.handle rest
   | "C08" :: rest => C08.handle rest
   | "C11" :: rest => C11.handle rest
   | _ => "bad-op"
